@@ -1166,3 +1166,12 @@ package zygo
 // the precedence loop: an operator is consumed only when it binds tighter than the caller's power
 //@ func (*Pratt).Expression
 //@ C06 assert consumes-only-tighter @before call MunchLeft[0]: rbp < nextLbp && arg1 == p && arg2 == p.AccumTree
+
+// The code of a template only produces operands of the squash / vectorize / hashize that
+// rebuilds it: an unquoted expression is never in tail position (a self-call there must
+// return to the template, not jump to the function's prologue).
+//@ func (*Generator).generateSyntaxQuoteList
+//@ C09,C15 requires template-code-not-tail: !gen.Tail
+//@ C09,C15 assert unquote-not-tail @before call Generate[*]: arg0 == gen && !gen.Tail
+//@ func (*Generator).GenerateSyntaxQuote
+//@ C09,C15 ensures keeps-own-tail: r0 == nil ==> gen.Tail == old(gen.Tail)
